@@ -919,6 +919,17 @@ class SymX:
             st = self._for_generator(s, st, gen, assigned, early)
         else:
             it = self.eval(s.iter, st)
+            items = self._display_items(it)
+            if items is not None and 1 <= len(items) <= 6 and not _has_loop_control(s.body):
+                # a loop over a display of known elements is executed element by element
+                for el in items:
+                    if not st.alive:
+                        break
+                    self._assign(s.target, el, st, None)
+                    st = self._block(s.body, st)
+                if s.orelse and st.alive:
+                    st = self._block(s.orelse, st)
+                return st
             pre = st.copy()
             lid = self.fresh()
             loop = Loop(lid, "for", it, None, self.fi, s, early)
@@ -944,6 +955,17 @@ class SymX:
         if s.orelse and st.alive:
             st = self._block(s.orelse, st)
         return st
+
+    def _display_items(self, it: Term) -> "list[Term] | None":
+        """Elements of a tuple / list display that is iterated as written (never mutated, no unpacking inside)."""
+        src = it
+        if src[0] == "box":
+            if not self._never_mutated(src):
+                return None
+            src = src[3]
+        if src[0] in ("tuple", "list") and not any(x[0] == "star" for x in src[1]):
+            return list(src[1])
+        return None
 
     def _inplace_only(self, body: list[ast.stmt], st: State) -> set[str]:
         """Names that hold a container and are only updated in place (`xs += ...`) in the loop body: they keep their identity."""
@@ -1855,6 +1877,32 @@ def _exits_early(body: list[ast.stmt]) -> bool:
         return False
 
     return breaks(body) or any(isinstance(n, ast.Return) for b in body for n in _walk_own(b))
+
+
+def _has_loop_control(body: list[ast.stmt]) -> bool:
+    """`break` / `continue` that belong to the loop with this body."""
+
+    def visit(stmts: list[ast.stmt]) -> bool:
+        for st in stmts:
+            if isinstance(st, (ast.Break, ast.Continue)):
+                return True
+            if isinstance(st, (ast.For, ast.AsyncFor, ast.While)):
+                if visit(st.orelse):
+                    return True
+                continue
+            for fld in ("body", "orelse", "finalbody"):
+                blk = getattr(st, fld, None)
+                if isinstance(blk, list) and blk and isinstance(blk[0], ast.stmt) and visit(blk):
+                    return True
+            for h in getattr(st, "handlers", []) or []:
+                if visit(h.body):
+                    return True
+            for c in getattr(st, "cases", []) or []:
+                if visit(c.body):
+                    return True
+        return False
+
+    return visit(body)
 
 
 def _names_of_target(t: ast.AST) -> set[str]:
